@@ -13,10 +13,11 @@ Definition set_step_size {T} (s : ss T) v := mkss (f_last_epoch s) (f_gamma s) v
 Definition set_base {T} (s : ss T) v := mkss (f_last_epoch s) (f_gamma s) (f_step_size s) v (f_lam s) (f_oval s).
 Definition set_lam {T} (s : ss T) v := mkss (f_last_epoch s) (f_gamma s) (f_step_size s) (f_base s) v (f_oval s).
 Definition set_oval {T} (s : ss T) v := mkss (f_last_epoch s) (f_gamma s) (f_step_size s) (f_base s) (f_lam s) v.
-(* what state_dict() returns: every field of the scheduler's __dict__ except `optimizer`,
+(* what state_dict() returns: every field of the scheduler's __dict__ except `optimizer` and except plain functions (sd_lam = None:
+   the schedule of a Lambda scheduler is not saved; Some f only for code that still puts the function into the state),
    plus (after the fix for the resume defect) the live scheduled value *)
 Record sdict (T : Type) := mksd { sd_last_epoch : Z; sd_gamma : T; sd_step_size : Z; sd_base : T;
-                                  sd_lam : Z -> T; sd_live : option T }.
+                                  sd_lam : option (Z -> T); sd_live : option T }.
 Arguments mksd {T}. Arguments sd_last_epoch {T}. Arguments sd_gamma {T}. Arguments sd_step_size {T}.
 Arguments sd_base {T}. Arguments sd_lam {T}. Arguments sd_live {T}.
 (* hasattr(optimizer, "<attr>") on a DPOptimizer: the attribute exists (assumption of the model) *)
